@@ -229,24 +229,22 @@ _EMPTY = (dict, list, set)
 
 
 def tables_snapshot():
-    """names of the library's definition and lookup tables: every module-level
-    container that is non-empty at import time and bound to a public constant
-    name (ALL CAPS, no leading underscore -- the convention every table of the
-    library follows).  Containers that are empty at import, or bound to private
-    names, are caches/registries by construction and scalars are configuration
-    or counters: a correct cache may grow while parsing without the property
-    being touched; whether it changes a *result* is what the outcome comparison
-    decides."""
+    """The library's definition and lookup tables: the module-level containers
+    listed in the pinned file corpus/tables.txt (every non-empty public
+    ALL-CAPS container of the clean tree, by module and name; 91 bindings of 48
+    objects).  Names that no longer exist in the tree under test are skipped;
+    containers a refactor adds -- memo caches, precomputed expansions, even when
+    they sit next to the tables, are pre-seeded at import and grow or evict while
+    parsing -- are not the library's definition tables and are not digested:
+    whether they change a *result* is what the outcome comparison decides."""
+    path = os.path.join(os.path.dirname(os.path.dirname(os.path.dirname(os.path.abspath(__file__)))), "corpus", "tables.txt")
     names = []
-    for name in sorted(sys.modules):
-        if name == "pyrtcm" or name.startswith("pyrtcm."):
-            mod = sys.modules[name]
-            for k in sorted(vars(mod)):
-                if k.startswith("__"):
-                    continue
-                v = vars(mod)[k]
-                if isinstance(v, (dict, list, tuple, set, frozenset)) and len(v) > 0 and not k.startswith("_") and k.upper() == k:
-                    names.append((name, k))
+    with open(path) as f:
+        for line in f:
+            mname, k = line.split()
+            mod = sys.modules.get(mname)
+            if mod is not None and isinstance(vars(mod).get(k), (dict, list, tuple, set, frozenset)):
+                names.append((mname, k))
     return names
 
 
